@@ -511,9 +511,38 @@ def big_endian_client_case():
     return None
 
 
+def late_loss_of_refused_connection_case():
+    """unique names are never reused, whatever the order in which refused or half-open connections go away"""
+    from twisted.internet.testing import StringTransport
+    from txdbus import message
+    net = Net()
+    names = []
+    a = net.connect(); names.append(a.name)
+    # a connection that never says Hello: its first call goes to a peer, it is refused (closed), but the loss is reported late
+    tr = StringTransport()
+    half = net.f.buildProtocol(None)
+    half.makeConnection(tr)
+    half.guid = 'x'
+    half.setAuthenticationSucceeded()
+    half.dataReceived(message.MethodCallMessage('/o', 'M', interface='org.e.I', destination=a.name).rawMessage)
+    b = net.connect(); names.append(b.name)
+    half.connectionLost(None)                       # only now does the bus hear that the refused connection is gone
+    c = net.connect(); names.append(c.name)
+    b.proto.connectionLost(None)
+    d = net.connect(); names.append(d.name)
+    if len(set(names)) != len(names):
+        return 'unique names handed out: %r (a name was reused)' % names
+    for p in (a, c, d):
+        p.drain()
+    d.send(message.SignalMessage('/o', 'S', 'org.e.I', destination=c.name, signature='s', body=['x']))
+    if [x.body for x in c.drain() if getattr(x, 'member', None) == 'S'] != [['x']] or any(getattr(x, 'member', None) == 'S' for x in a.drain() + d.drain()):
+        return 'after connections came and went a message to %s did not arrive there exactly once' % c.name
+    return None
+
+
 def bounded(tier, seed):
     n = 0
-    for case in (order_case, prehello_case, dead_subscriber_case, takeover_case, namespace_subscription_case, forged_wellknown_sender_case, big_endian_client_case):
+    for case in (late_loss_of_refused_connection_case, order_case, prehello_case, dead_subscriber_case, takeover_case, namespace_subscription_case, forged_wellknown_sender_case, big_endian_client_case):
         n += 1
         try:
             f = case()
